@@ -51,13 +51,17 @@ allvars == <<lcvars, xvars>>
 LC == INSTANCE LzmaCode WITH MaxOut <- 1
 
 Encoders == {"stream", "mt", "raw", "block"}
-Pres     == {"none", "delta", "x86"}
+Pres     == {"none", "delta", "x86", "armbad"}   \* armbad: ARM BCJ with start_offset = 2 (not a multiple of 4)
 Lzs      == {"lzma1", "lzma2"}
 GoodProps == {"p0", "p1"}          \* two valid lc/lp/pb settings
 AllProps == GoodProps \cup {"bad"} \* "bad": lc + lp > 4
 Chain(pre, lz, props) == [pre |-> pre, lz |-> lz, props |-> props]
 ChainsAll == [pre : Pres, lz : Lzs, props : AllProps]
 ValidChain(c) == c.props \in GoodProps      \* lzma_raw_encoder_memusage(filters) != UINT64_MAX
+\* A chain can pass that validation and lzma_block_header_size() and still be refused when the filters are
+\* initialised: lzma_simple_coder_init() returns LZMA_OPTIONS_ERROR for a misaligned start offset.  By then
+\* lzma_raw_coder_init() has already freed the old filter encoders, and frees the new ones (lzma_next_end).
+InitOk(c) == c.pre # "armbad"
 
 \* lzma_stream_encoder / lzma_stream_encoder_mt / lzma_raw_encoder / lzma_block_encoder
 SupportedBy(e) == CASE e = "stream" -> {"RUN", "SYNC_FLUSH", "FULL_FLUSH", "FINISH", "FULL_BARRIER"}
@@ -95,7 +99,8 @@ FreshFl(c) ==
      encFresh |-> TRUE,       \* LZMA encoder state is the initial state (nothing coded since create / reset)
      rc |-> FALSE,            \* LZMA1: coded bytes are still inside the range coder / not yet terminated
      l1flushed |-> FALSE,     \* LZMA1: is_flushed
-     lost |-> FALSE]          \* accepted bytes were thrown away (only reachable in Bugs variants)
+     lost |-> FALSE,          \* accepted bytes were thrown away (only reachable in Bugs variants)
+     dead |-> FALSE]          \* the filter encoders were freed by a failed initialisation (next.code == NULL)
 
 PipeEmpty(f) == ~f.held /\ ~f.win /\ ~f.chunk /\ ~f.rc /\ ~f.lost
 
@@ -249,7 +254,8 @@ FillResults(la) ==
 LzTop ==
     /\ fl.lzpc = "top"
     /\ LET la == InnerAction IN
-       IF call.outFull \/ ~(InLeft > 0 \/ la # "RUN")
+       IF fl.dead THEN LzRet("CRASH", fl, call, NoTok)        \* call through a NULL function pointer
+       ELSE IF call.outFull \/ ~(InLeft > 0 \/ la # "RUN")
        THEN LzRet("OK", fl, call, NoTok)
        ELSE IF fl.mfAct = "RUN" /\ ~fl.avail
        THEN \E x \in FillResults(la) :
@@ -569,7 +575,13 @@ Update(t) ==
        THEN done("OPTIONS_ERROR") /\ UNCHANGED <<sc, fl, mt>>
        ELSE
        CASE cfg.enc = "stream" ->
-              IF sc.sseq \in {"HDR", "BINIT"} \/ (Has("stream_update_mid_block") /\ sc.sseq = "BENC")
+              IF sc.sseq \in {"HDR", "BINIT"} /\ ~InitOk(t)
+              THEN \* block_encoder_is_initialized = false; block_encoder_init() fails inside the filter
+                   \* initialisation: the Block encoder's filters are gone, the next Block must initialise again
+                   /\ done("OPTIONS_ERROR") /\ UNCHANGED mt
+                   /\ sc' = [sc EXCEPT !.binit = Has("update_keeps_block_initialized") /\ sc.binit]
+                   /\ fl' = [fl EXCEPT !.dead = TRUE]
+              ELSE IF sc.sseq \in {"HDR", "BINIT"} \/ (Has("stream_update_mid_block") /\ sc.sseq = "BENC")
               THEN \* block_encoder_init() with the new chain
                    /\ done("OK") /\ UNCHANGED mt
                    /\ sc' = [sc EXCEPT !.binit = TRUE, !.chain = t, !.bseq = "CODE", !.blockIn = IF sc.sseq = "BENC" THEN @ ELSE 0]
